@@ -248,6 +248,23 @@ class World:
       warnings.simplefilter('ignore')
       return est.fit_transform(*tr['fit_args'], **tr['fit_kwargs'])
 
+  def has_crossval(self):
+    return self.kind in ('pairs', 'sup') and not self.wide
+
+  def cross_validate(self, est, d):
+    """scikit-learn model selection on the UNFITTED-or-fitted estimator object (it is cloned per fold)"""
+    from sklearn.model_selection import cross_val_score, KFold
+    from sklearn.pipeline import make_pipeline
+    from sklearn.neighbors import KNeighborsClassifier
+    tr = self.train[d - 1]
+    a = tr['fit_args']
+    cv = KFold(2, shuffle=True, random_state=0)
+    with warnings.catch_warnings(), contextlib.redirect_stdout(io.StringIO()):
+      warnings.simplefilter('ignore')
+      if self.kind == 'pairs':
+        return cross_val_score(est, a[0], a[1], cv=cv, error_score=-1.0)
+      return cross_val_score(make_pipeline(est, KNeighborsClassifier(n_neighbors=1)), a[0], a[1], cv=cv, error_score=-1.0)
+
   def dim_index_of(self, est):
     """index (0-based) of a data set with the estimator's current dimensionality"""
     k = est.components_.shape[1]
@@ -291,7 +308,7 @@ def reference(w):
   ref = {'nt': w.nt, 'ns': w.ns, 'arrays': w.arrays_digest(),
          'params': [w.params_digest(w.new(p)) for p in range(1, np_ + 1)],
          'model': [], 'thrfit': [], 'thrset': [digest(float(t)) for t in w.T], 'thrcal': [], 'query': [],
-         'metric': [], 'matrix': [], 'fit_transform': []}
+         'metric': [], 'matrix': [], 'fit_transform': [], 'crossval': []}
   nq = len(w.qnames)
   nk = 1 + w.nt + w.nv * w.ns
   defaults = dict(gen.CLS[w.name]().get_params())
@@ -301,7 +318,7 @@ def reference(w):
     full.update(w.P[pc - 1])
     e.set_params(**full)
   for p in range(1, np_ + 1):
-    rm, rt, rc, rq, rme, rma, rft = [], [], [], [], [], [], []
+    rm, rt, rc, rq, rme, rma, rft, rcv = [], [], [], [], [], [], [], []
     for d in range(1, nd + 1):
       def fresh():
         e = w.new(p)
@@ -311,13 +328,13 @@ def reference(w):
       none_c = [[['none'] * w.ns for _ in range(w.nv)] for _ in range(np_)]
       if w.canon[p - 1] != p:
         # model terms only ever carry canonical settings (MetricLearn!Canon): no value needed
-        rm.append('noncanonical'); rt.append('none'); rc.append(none_c); rq.append(none_q); rme.append('none'); rma.append('none'); rft.append('none')
+        rm.append('noncanonical'); rt.append('none'); rc.append(none_c); rq.append(none_q); rme.append('none'); rma.append('none'); rft.append('none'); rcv.append('none')
         continue
       try:
         e = fresh()
       except ValueError:
         # this parameter setting cannot be fitted on this data (dimension-specific array): no value
-        rm.append('unfittable'); rt.append('none'); rc.append(none_c); rq.append(none_q); rme.append('none'); rma.append('none'); rft.append('none')
+        rm.append('unfittable'); rt.append('none'); rc.append(none_c); rq.append(none_q); rme.append('none'); rma.append('none'); rft.append('none'); rcv.append('none')
         continue
       rm.append(digest(np.asarray(e.components_)))
       rt.append(digest(float(e.threshold_)) if w.has_thr else 'none')
@@ -330,6 +347,13 @@ def reference(w):
           rft.append('raised:' + type(ex).__name__)
       else:
         rft.append('none')
+      if w.has_crossval():
+        try:
+          rcv.append(digest(np.asarray(w.cross_validate(w.new(p), d))))
+        except Exception as ex:
+          rcv.append('raised:' + type(ex).__name__)
+      else:
+        rcv.append('none')
       qs_all, cal_all = [], []
       for pc in range(1, np_ + 1):
         qs = [['none'] * nq for _ in range(nk)]
@@ -366,7 +390,7 @@ def reference(w):
       rc.append(cal_all)
       rq.append(qs_all)
     ref['model'].append(rm); ref['thrfit'].append(rt); ref['thrcal'].append(rc); ref['query'].append(rq)
-    ref['metric'].append(rme); ref['matrix'].append(rma); ref['fit_transform'].append(rft)
+    ref['metric'].append(rme); ref['matrix'].append(rma); ref['fit_transform'].append(rft); ref['crossval'].append(rcv)
   return ref
 
 
@@ -412,6 +436,13 @@ def run(w, ops):
       elif kind == 'FitTransform':
         ev['obj'], ev['data'] = op[1], op[2]
         ev['out'] = digest(np.asarray(w.fit_transform(objs[op[1] - 1], op[2])))
+      elif kind == 'CrossValidate':
+        ev['obj'], ev['data'] = op[1], op[2]
+        try:
+          ev['out'] = digest(np.asarray(w.cross_validate(objs[op[1] - 1], op[2])))
+        except Exception as ex:
+          # (all folds may fail, e.g. too few points for the requested chunks: a value like any other, as in the reference)
+          ev['out'] = 'raised:' + type(ex).__name__
       elif kind == 'SetThreshold':
         ev['obj'], ev['t'] = op[1], op[2]
         objs[op[1] - 1].set_threshold(w.T[op[2] - 1])
@@ -467,7 +498,7 @@ def ops_from_last(states):
       ops.append(['New', last[2]])
     elif k in ('Clone', 'Pickle', 'GetMetric', 'GetMatrix'):
       ops.append([k, last[1]])
-    elif k in ('Fit', 'FitTransform'):
+    elif k in ('Fit', 'FitTransform', 'CrossValidate'):
       ops.append([k, last[1], last[2]])
     elif k in ('SetParams', 'SetThreshold'):
       ops.append([k, last[1], last[2]])
